@@ -546,7 +546,7 @@ pub fn check(cfg: &RunCfg, _findings: &Findings) -> Report {
     cfg,
     "C06-product-sweep",
     16,
-    if quick { 400 } else { 1_600 },
+    if quick { 2_000 } else { 10_000 },
     48,
     300,
     150,
